@@ -29,20 +29,25 @@ def _runtime(case):
             from synkit.IO import smiles_to_graph, rsmi_to_its
             from synkit.Synthesis.Reactor.syn_reactor import SynReactor
             ref = []
-            for s_ in case["subs"]:
+            table = []          # [entry index, rule index, results]: the execute table of the worker model
+            for si, s_ in enumerate(case["subs"]):
                 flat = []
-                for r in case["rules"]:
+                for ri, r in enumerate(case["rules"]):
+                    one = []
                     try:
                         g = smiles_to_graph(s_, drop_non_aam=False, use_index_as_atom_map=False)
-                        flat += list(SynReactor(substrate=g, template=rsmi_to_its(r, core=True), invert=case["inv"],
-                                                strategy=opts.get("strategy", "bt"), explicit_h=opts.get("explicit_h", True),
-                                                implicit_temp=opts.get("implicit_temp", False)).smarts_list)
+                        one = list(SynReactor(substrate=g, template=rsmi_to_its(r, core=True), invert=case["inv"],
+                                              strategy=opts.get("strategy", "bt"), explicit_h=opts.get("explicit_h", True),
+                                              implicit_temp=opts.get("implicit_temp", False)).smarts_list)
                     except Exception:
                         pass
+                    table.append([si, ri, one])
+                    flat += one
                 if opts.get("dedupe", True):
                     flat = list(dict.fromkeys(flat))
                 ref.append({key: flat, "count": len(flat)})
             vals.append(["every entry alone (SynReactor, rule by rule)", [ref, ref] if case.get("twice") else ref])
+            vals.append(["__table__", table])
     elif what == "validate":
         from synkit.Chem.Reaction.aam_validator import AAMValidator
         opts = dict(case.get("opts", {}))
